@@ -253,6 +253,7 @@ func (p *Parser) ParseProgram() (*ast.Program, error) {
 		}
 		p.NextToken()
 	}
+	program.EndComments = p.CurrentToken.LeadingComments
 	if len(p.errors) > 0 {
 		return program, fmt.Errorf("parsing failed with %d errors: %v",
 			len(p.errors), p.errors[0])
